@@ -304,6 +304,8 @@ pub fn probe_names() -> Vec<&'static str> {
         "recv_waited",
         "seq_actions",
         "cancelled_discarded",
+        "task_alloc",
+        "task_dealloc",
     ]
 }
 
